@@ -302,6 +302,20 @@ func genC15(tier string, r *rng) {
 			run(fmt.Sprintf("fz %s %s", p.entry, hx(m)))
 		}
 	}
+	// handshake requests whose key has the right length (24) but every kind of content: no padding, one '=', padding in
+	// the middle, characters outside the base64 alphabet, whitespace
+	for _, key := range []string{"AAAAAAAAAAAAAAAAAAAAAAAA", "dGhlIHNhbXBsZSBub25jZQE=", "dGhlIHNhbXBsZSBub25jZQ==", "AAAA====AAAAAAAAAAAAAAAA", "========================",
+		"////////////////////////", "AAAAAAAAAAAAAAAAAAAAAAA=", "\x00\x01\x02AAAAAAAAAAAAAAAAAAAAA", "AAAAAAAAAAA AAAAAAAAAAAA", "-_-_-_-_-_-_-_-_-_-_-_-_"} {
+		hs := baseHeaders()
+		for i := range hs {
+			if hs[i].k == "Sec-WebSocket-Key" {
+				hs[i].v = " " + key
+			}
+		}
+		req := buildReq("GET", "/ws", "HTTP/1.1", hs, "\r\n")
+		run(fmt.Sprintf("fz up %s", hx(req)))
+		run(fmt.Sprintf("fz hup %s", hx(req)))
+	}
 	// extreme announced lengths 2^31 .. 2^63-1 at every frame entry point
 	for _, l := range []uint64{1 << 31, 1<<31 + 1, 1 << 32, 1 << 40, 1 << 62, 1<<63 - 1, 1 << 63, 1<<64 - 1} {
 		for _, masked := range []bool{false, true} {
